@@ -115,7 +115,9 @@ def gil_functions(tud):
 
 def write_main(q, outd, ret_void=True):
     p = os.path.join(outd, 'main_%s.c' % q.entry)
-    open(p, 'w').write('''#include "vp_rt.h"
+    if os.path.exists(p): return p          # content depends only on the entry name; queries sharing (TU, entry) run concurrently
+    tmp = p + '.%d.%d.tmp' % (os.getpid(), threading.get_ident())
+    open(tmp, 'w').write('''#include "vp_rt.h"
 void F_%s(void);
 int main(void) { vp_rt_init(); vp_init_globals(); F_%s();
 #ifdef VP_WITNESS
@@ -123,6 +125,7 @@ int main(void) { vp_rt_init(); vp_init_globals(); F_%s();
 #endif
   return 0; }
 ''' % (q.entry, q.entry))
+    os.replace(tmp, p)
     return p
 
 def cbmc_cmd(q, outd, extra):
@@ -159,7 +162,9 @@ def rt_loop_ids(q):
 def loops_for(q, outd):
     """--unwindset: runtime-model loops get q.rt_unwind; (function-name pattern -> bound) entries of q.unwindset are
     resolved against cbmc --show-loops of the generated program"""
-    us = ['%s:%d' % (i, q.rt_unwind) for i in rt_loop_ids(q)]
+    # X_vp_fill_n is only ever called with concrete sizes (unrolled exactly); the other runtime loops get the query's rt_unwind
+    # vp_mem* also serve constant-size struct copies/zeroing emitted by clang (up to ~130 bytes)
+    us = ['%s:%d' % (i, 2100 if i.startswith('X_vp_fill_n.') else (max(q.rt_unwind, 130) if i.startswith('vp_mem') else q.rt_unwind)) for i in rt_loop_ids(q)]
     if q.unwindset:
         js = None
         for attempt in range(3):
